@@ -4,6 +4,7 @@ package pfcpiface
 
 import (
 	"math/rand"
+	"sync"
 )
 
 // C07 — UP-chosen identifiers are unique among live users.
@@ -183,4 +184,23 @@ func H_C07_seid() {
 	// the session must be storable under its SEID: a zero SEID is refused by the store
 	err := pc.store.PutSession(s)
 	vAssert("seid-storable(non-zero)", err == nil)
+}
+
+// R_C07_teid exercises the generator from several goroutines (native -race
+// replay of a lock-discipline violation).
+func R_C07_teid() {
+	g := NewFTEIDGenerator()
+	var wg sync.WaitGroup
+	for k := 0; k < 4; k++ {
+		wg.Add(1)
+		go func() {
+			defer wg.Done()
+			for r := 0; r < 300; r++ {
+				id, _ := g.Allocate()
+				_ = g.IsAllocated(id)
+				g.FreeID(id)
+			}
+		}()
+	}
+	wg.Wait()
 }
